@@ -127,8 +127,21 @@ MODULES = [
     dict(name='merge_function', file='merge_function.rs', header=HDR_IO, rewrites=[
         dict(name='drop:Either', kind='drop_item', pat=r'^impl<MFA, MFB> MergeFunction for Either<MFA, MFB>', count=1),
         dict(name='R-use:either', pat='use either::Either;\n', rep=''),
+        # the user's merge function is a deterministic function of (key, values): contract on the trait method (mf_out is uninterpreted)
+        dict(name='R-trait-spec:merge', pat="    fn merge<'a>(&self, key: &[u8], values: &[Cow<'a, [u8]>])\n        -> Result<Cow<'a, [u8]>, Self::Error>;",
+             rep="    fn merge<'a>(&self, key: &[u8], values: &[Cow<'a, [u8]>])\n        -> (r: Result<Cow<'a, [u8]>, Self::Error>)\n        ensures r is Ok ==> mf_out(self, key@, cows_view(values@)) == Some(cow_view(r->Ok_0)), r is Err ==> mf_out(self, key@, cows_view(values@)) is None;"),
     ]),
     dict(name='merger', file='merger.rs', header=HDR_IO, rewrites=[
+        # R-hoist: the iterator chain that gathers the values of the entries sharing the key becomes a call to a stub with an
+        # assumed contract (spec: collect_values, body = the original chain)
+        dict(name='R-hoist:values', pat="let other_values =\n            self.tmp_entries.iter().filter_map(|e| e.cursor.current().map(|(_, v)| v));\n        let values: Vec<_> = once(first_value).chain(other_values).map(Cow::Borrowed).collect();",
+             rep="let values: Vec<Cow<[u8]>> = collect_values(first_value, &self.tmp_entries);"),
+        # R-chain-drain + R-field-split: `for mut entry in once(first_entry).chain(self.tmp_entries.drain(..)) { if entry.cursor.move_on_next()..?.is_some()
+        # { self.heap.push(entry); } }` becomes a loop over a Vec holding first_entry followed by the drained entries, in the same order (on an early
+        # exit the remaining entries are dropped, as with drain); the entry is taken apart and rebuilt because Verus forbids `&mut` to a field of a
+        # type carrying a type invariant
+        dict(name='R-chain-drain', pat='for mut entry in once(first_entry).chain(self.tmp_entries.drain(..)) {\n            if entry.cursor.move_on_next().map_err(Error::convert_merge_error)?.is_some() {\n                self.heap.push(entry);\n            }',
+             rep='let mut all_entries: Vec<Entry<R>> = Vec::new();\n        all_entries.push(first_entry);\n        all_entries.append(&mut self.tmp_entries);\n        for entry0 in all_entries {\n            let Entry { cursor: mut ecursor, source_index: eindex } = entry0;\n            if ecursor.move_on_next().map_err(Error::convert_merge_error)?.is_some() {\n                self.heap.push(Entry { cursor: ecursor, source_index: eindex });\n            }'),
         dict(name='R-closure-pat:k', pat='.map(|(k, _)| k)', rep='.map(|e: (&[u8], &[u8])| -> (r: &[u8]) ensures r@ == e.0@ { e.0 })', count=2),
         dict(name='R-mutself', kind='mutself', fn='add', count=1),
     ]),
